@@ -1,6 +1,6 @@
 import CovfieModel.Model.Kinds
 /-! Driver for C13: parses a stack descriptor (prefix notation) and prints the kind model's verdicts.
-      k <stack>                -> `ok inSk inDim bare outSk outDim ref | lookup <none|Err> | view size align fits | ops b0..b10`
+      k <stack>                -> `ok inSk inDim bare outSk outDim ref | lookup <none|Err> | view size align fits | ops b0..b10 | stated b`
                                   or `err <KindErr> | view ... | ops 00000000000`
       conv <dst> ; <src>       -> `supports applicable compatible convertible` (0/1 each)
     <stack> ::= array sk M | constant sk N sk M | identity sk N | strided|mortonT|mortonF|hilbert sk N <stack>
@@ -58,6 +58,7 @@ def describe (s : KStack) : String :=
     | .ok (n, a) => s!"view {n} {a} {bit (viewFits s)}"
     | .error _ => "view - - 0"
   let ops := String.join (baseOps.map fun op => bit (supports s op))
+  let ops := ops ++ s!" | stated {bit (stated s)}"
   match kind s with
   | .error e => s!"err {errName e} | {v} | ops {ops}"
   | .ok k =>
